@@ -4,18 +4,16 @@ usage: refactortest.py <seed_root> <worker> <R/i> ..."""
 import json, os, re, shutil, subprocess, sys
 root, worker = sys.argv[1], sys.argv[2]
 VERIF = os.path.dirname(os.path.dirname(os.path.abspath(__file__)))
-MAP = [
-    ("src/optimisation.rs", ["C05", "C06", "C07", "C18", "C19", "C20", "C10"]),
-    ("src/basis.rs", ["C06", "C08", "C19", "C11"]),
-    ("src/cell.rs", ["C14", "C01", "C02", "C08", "C04"]),
-    ("src/transform.rs", ["C15", "C14", "C17", "C11", "C12"]),
-    ("src/site.rs", ["C15", "C04", "C08"]),
-    ("src/state/", ["C01", "C02", "C03", "C08", "C10", "C11"]),
-    ("src/shape/", ["C12", "C13", "C02", "C01", "C03"]),
-    ("src/wallpaper.rs", ["C16", "C10"]),
-    ("src/main.rs", ["C10", "C20"]),
-    ("src/to_svg.rs", ["C11"]),
+# file -> Verus units that extract from it; every property whose check builds one of those units is run (so that an obligation tagged for a
+# property the file "does not belong to" is exercised too: R8/4 broke a C14-tagged invariant in src/state/potential.rs)
+UNITS = [
+    ("src/optimisation.rs", ["opt", "cli"]), ("src/basis.rs", ["opt", "state"]), ("src/cell.rs", ["geom", "state"]), ("src/transform.rs", ["geom", "state", "pairs"]),
+    ("src/site.rs", ["geom", "state"]), ("src/wallpaper.rs", ["geom", "state", "cli"]), ("src/to_svg.rs", ["geom", "state"]), ("src/state/", ["state"]),
+    ("src/shape/", ["pairs"]), ("src/main.rs", ["cli"]),
 ]
+sys.path.insert(0, VERIF)
+from vx import registry as _REG
+MAP = [(pre, [p for p in sorted(_REG.PROPS) if set(_REG.PROPS[p].get("units", [])) & set(us)]) for pre, us in UNITS]
 for item in sys.argv[3:]:
     R_, i = item.split("/")
     sd = os.path.join(root, R_, "seeded", i)
